@@ -73,6 +73,7 @@ package m
 //@   invariant verified-key [C01]: self.verified ==> len(self.PublicKey) == 32 && self.Type == "Ed25519" && hashvalid(self.Hash) && self.IP.IsValid()
 
 //@ func PublicAddress.VerifyAddress
+//@   option noinv
 //@   modifies nothing
 //@   update when result == nil: addr.verified = true
 //@   ensures accepted-only-if-valid [C01,C13]: result == nil ==> hashvalid(addr.Hash) && addr.Type == "Ed25519" && len(addr.PublicKey) == 32 && addr.IP.IsValid()
